@@ -599,7 +599,10 @@ func Verify(P *Program, blk *Block, opt Options) (res *Result) {
 		res.Skipped = "STALE-CONTRACT: no function " + blk.Name
 		return res
 	}
-	if blk.Trusted || blk.Abstract {
+	// an `abstract` function is an uninterpreted function of its arguments at
+	// its call sites; with `uses verify-body` its body is nevertheless verified
+	// against the block's own postconditions
+	if blk.Trusted || (blk.Abstract && !blk.HasUse("verify-body")) {
 		res.Skipped = "trusted"
 		return res
 	}
